@@ -353,6 +353,11 @@ def run(ck):
         if rc != 0 and not diag and not silenced:
             ck.violation("non-zero exit status %d without any diagnostic (%s)" % (rc, " ".join(argv)[:120]), rep)
             continue
+        if rc != 0 and not diag and silenced and front_end_failure(toks):
+            # -n / --no_echo asks for silence about the OPERATION (its result line); a command line the option front end refuses
+            # (no mode, two modes, missing or unopenable file, malformed key, number out of range ...) is still diagnosed
+            ck.violation("a command line refused by the option front end exits %d without any diagnostic because it contains -n (%s)" % (rc, " ".join(argv)[:120]), rep)
+            continue
         # semantic oracle independent of the model for the common shapes
         want0 = expected_success(toks)
         if want0 is not None and (rc == 0) != want0:
@@ -396,6 +401,34 @@ def run(ck):
         ck.violation("correspondence model/implementation no longer checks on %d option vectors, no property violation found" % corr, last, found_input=False)
     return finish_proof(ck, rule="%d option vectors for the real Wencry binary: a fixed list (every mode alone, missing input/key/output for each mode, two modes, no mode, invalid key texts, unopenable output, long path, unopenable default output, -V/-h, unknown option, --cmode/--hmode in {0,1,4,5,7,127,128,200,255,256,257,300,-1,-5} for -e and -d) plus random subsets in random order with short/long/= forms; exit status, terminating signal, diagnostics and effects (file created, decrypted output equals the plaintext) compared with the model and with an independent expectation for the common shapes; plus the defaults round trip. distinct = distinct token lists" % len(vecs),
                         assumptions=["glibc getopt_long tokenisation (clusters, --opt=value, abbreviations, permutation) is environment: the harness renders tokens into argv forms it understands", "interactive prompt mode (no arguments) is excluded by the property"])
+
+
+def front_end_failure(toks):
+    """True when the documentation settles that the option front end itself refuses the command line (independent of -n)"""
+    modes = [x[0] for x in toks if x[0] in "edvVh"]
+    if len(modes) != 1:
+        return True
+    if any(x[0] == "x" or (x[0] == "k" and x[1] == "I") or (x[0] == "o" and not x[1]) or (x[0] == "i" and (x[3] == "M" or (isinstance(x[3], tuple) and x[3][0] == "X"))) for x in toks):
+        return True
+    if any(x[0] == "i" and isinstance(x[3], tuple) and x[3][0] == "S" for x in toks):
+        return False
+    m = modes[0]
+    cm = [x[1] for x in toks if x[0] == "c"]
+    hm = [x[1] for x in toks if x[0] == "m"]
+    if len(cm) > 1 or len(hm) > 1:
+        return False        # a repeated mode option: not settled here
+    if m in "Vh":
+        return any(not (0 <= v <= 127) for v in cm + hm)
+    if any(not (0 <= v <= 4) for v in cm) or any(not (0 <= v <= 2) for v in hm):
+        return True
+    ins = [x for x in toks if x[0] == "i"]
+    if not ins:
+        return True
+    if m == "e":
+        return not [x for x in toks if x[0] == "o"] and (ins[-1][1] or not ins[-1][2])
+    if not [x for x in toks if x[0] == "k"]:
+        return True
+    return m == "d" and not [x for x in toks if x[0] == "o"]
 
 
 def expected_success(toks):
